@@ -28,6 +28,9 @@ pub fn ty_text(t: &Ty, u: &Universe) -> String {
         Ty::NilWith => "crate::rt::NilU32".into(), Ty::NilFns => "crate::rt::NilStr".into(),
         Ty::Param => "T".into(),
         Ty::GenericInst(i) => if def_needs_lifetime(&u.defs[*i], u) { format!("{}<'a, u16>", u.defs[*i].name()) } else { format!("{}<u16>", u.defs[*i].name()) }
+        Ty::GenericInstOpt(i) => if def_needs_lifetime(&u.defs[*i], u) { format!("{}<'a, Option<u16>>", u.defs[*i].name()) } else { format!("{}<Option<u16>>", u.defs[*i].name()) }
+        Ty::NilOwn => "crate::rt::OwnNil".into(),
+        Ty::OptAlias => "crate::rt::OptU8".into(),
     }
 }
 
@@ -128,8 +131,9 @@ fn model_expr(t: &Ty, x: &str, u: &Universe) -> String {
         Ty::VecOf(e) => format!("{{ let v: Vec<vcore::Item> = {}.iter().map(|e| {}).collect(); fr.array(v) }}", x, model_expr(e, "e", u)),
         Ty::BoxOf(e) => model_expr(e, &format!("(&**{})", x), u),
         Ty::MapU8(e) => format!("{{ let v: Vec<(vcore::Item, vcore::Item)> = {}.iter().map(|(k, e)| (fr.uint(*k as u64), {})).collect(); fr.map(v) }}", x, model_expr(e, "e", u)),
-        Ty::Struct(_) | Ty::Enum(_) | Ty::GenericInst(_) => format!("{}.to_model(fr)", x),
-        Ty::NilWith => format!("(match {}.0 {{ None => vcore::Item::Null, Some(n) => fr.uint(n as u64) }})", x),
+        Ty::Struct(_) | Ty::Enum(_) | Ty::GenericInst(_) | Ty::GenericInstOpt(_) => format!("{}.to_model(fr)", x),
+        Ty::NilWith | Ty::NilOwn => format!("(match {}.0 {{ None => vcore::Item::Null, Some(n) => fr.uint(n as u64) }})", x),
+        Ty::OptAlias => format!("(match *{} {{ None => vcore::Item::Null, Some(n) => fr.uint(n as u64) }})", x),
         Ty::NilFns => format!("(if {}.0.is_empty() {{ vcore::Item::Null }} else {{ fr.text(&{}.0[..]) }})", x, x),
         Ty::Param => format!("crate::rt::ParamModel::pmodel({}, fr)", x),
     }
@@ -137,7 +141,8 @@ fn model_expr(t: &Ty, x: &str, u: &Universe) -> String {
 
 fn is_nil_expr(f: &Field, x: &str) -> String {
     if f.optional { format!("{}.is_none()", x) }
-    else { match f.ty { Ty::NilWith => format!("{}.0.is_none()", x), Ty::NilFns => format!("{}.0.is_empty()", x), _ => "false".into() } }
+    else { match f.ty { Ty::NilWith | Ty::NilOwn => format!("{}.0.is_none()", x), Ty::NilFns => format!("{}.0.is_empty()", x), Ty::OptAlias => format!("{}.is_none()", x),
+                        Ty::Param => format!("crate::rt::ParamModel::pnil(&{})", x), _ => "false".into() } }
 }
 
 /// Slot list expression for a body: `vec![Slot { idx, tag, nil, item }, ...]`.
@@ -162,8 +167,10 @@ fn mval_expr(t: &Ty, x: &str, u: &Universe) -> String {
         Ty::VecOf(e) => format!("crate::rt::MVal::Seq({}.iter().map(|e| {}).collect())", x, mval_expr(e, "e", u)),
         Ty::BoxOf(e) => mval_expr(e, &format!("(&**{})", x), u),
         Ty::MapU8(e) => format!("crate::rt::MVal::Seq({}.iter().map(|(k, e)| crate::rt::MVal::Seq(vec![crate::rt::MVal::Leaf(vec![*k]), {}])).collect())", x, mval_expr(e, "e", u)),
-        Ty::Struct(_) | Ty::Enum(_) | Ty::GenericInst(_) => format!("{}.to_mval()", x),
-        Ty::NilWith => format!("(match {}.0 {{ None => crate::rt::MVal::None, Some(_) => crate::rt::MVal::Leaf({{ let fr = &mut crate::rt::Fr::preferred(); {}.encode() }}) }})", x, model_expr(t, x, u)),
+        Ty::Struct(_) | Ty::Enum(_) | Ty::GenericInst(_) | Ty::GenericInstOpt(_) => format!("{}.to_mval()", x),
+        Ty::NilWith | Ty::NilOwn => format!("(match {}.0 {{ None => crate::rt::MVal::None, Some(_) => crate::rt::MVal::Leaf({{ let fr = &mut crate::rt::Fr::preferred(); {}.encode() }}) }})", x, model_expr(t, x, u)),
+        Ty::OptAlias => format!("(match *{} {{ None => crate::rt::MVal::None, Some(_) => crate::rt::MVal::Leaf({{ let fr = &mut crate::rt::Fr::preferred(); {}.encode() }}) }})", x, model_expr(t, x, u)),
+        Ty::Param => format!("crate::rt::ParamModel::pmval({})", x),
         Ty::NilFns => format!("(if {}.0.is_empty() {{ crate::rt::MVal::None }} else {{ crate::rt::MVal::Leaf({{ let fr = &mut crate::rt::Fr::preferred(); {}.encode() }}) }})", x, model_expr(t, x, u)),
         _ => format!("crate::rt::MVal::Leaf({{ let fr = &mut crate::rt::Fr::preferred(); let _ = &fr; {}.encode() }})", model_expr(t, x, u)),
     }
@@ -192,7 +199,7 @@ fn same_expr(t: &Ty, a: &str, b: &str) -> String {
         Ty::BoxOf(e) => same_expr(e, &format!("(&**{})", a), &format!("(&**{})", b)),
         Ty::MapU8(e) => format!("({a}.len() == {b}.len() && {a}.iter().zip({b}.iter()).all(|((k1, x), (k2, y))| k1 == k2 && {}))", same_expr(e, "x", "y"), a = a, b = b),
         Ty::F32 | Ty::F64 => format!("{}.to_bits() == {}.to_bits()", a, b),
-        Ty::Struct(_) | Ty::Enum(_) | Ty::GenericInst(_) => format!("{}.same({})", a, b),
+        Ty::Struct(_) | Ty::Enum(_) | Ty::GenericInst(_) | Ty::GenericInstOpt(_) => format!("{}.same({})", a, b),
         Ty::CowStr | Ty::CowBytes | Ty::String | Ty::Str | Ty::BytesVec | Ty::BytesSlice | Ty::BytesArr4 | Ty::ByteVec | Ty::ByteSliceRef => format!("{}[..] == {}[..]", a, b),
         Ty::Param => format!("crate::rt::ParamModel::psame({}, {})", a, b),
         _ => format!("{} == {}", a, b)
@@ -212,7 +219,7 @@ fn borrow_expr(t: &Ty, f: &Field, x: &str, direct: bool) -> Option<String> {
         Ty::VecOf(e) => borrow_expr(e, f, "e", false).map(|inner| format!("{}.iter().all(|e| {})", x, inner)),
         Ty::BoxOf(e) => borrow_expr(e, f, &format!("(&**{})", x), false),
         Ty::MapU8(e) => borrow_expr(e, f, "e", false).map(|inner| format!("{}.values().all(|e| {})", x, inner)),
-        Ty::Struct(_) | Ty::Enum(_) | Ty::GenericInst(_) => Some(format!("{}.borrows_ok(input)", x)),
+        Ty::Struct(_) | Ty::Enum(_) | Ty::GenericInst(_) | Ty::GenericInstOpt(_) => Some(format!("{}.borrows_ok(input)", x)),
         _ => None
     }
 }
@@ -220,7 +227,7 @@ fn borrow_expr(t: &Ty, f: &Field, x: &str, direct: bool) -> Option<String> {
 /// `x` is a place expression of type `t`.
 fn normalize_stmt(t: &Ty, x: &str) -> Option<String> {
     match t {
-        Ty::Struct(_) | Ty::Enum(_) | Ty::GenericInst(_) => Some(format!("{}.normalize();", x)),
+        Ty::Struct(_) | Ty::Enum(_) | Ty::GenericInst(_) | Ty::GenericInstOpt(_) => Some(format!("{}.normalize();", x)),
         Ty::VecOf(e) => normalize_stmt(e, "(*e)").map(|s| format!("for e in {}.iter_mut() {{ {} }}", x, s)),
         Ty::BoxOf(e) => normalize_stmt(e, &format!("(*{})", x)),
         Ty::MapU8(e) => normalize_stmt(e, "(*e)").map(|s| format!("for e in {}.values_mut() {{ {} }}", x, s)),
@@ -241,6 +248,7 @@ fn draw_stmts(fields: &[Field], u: &Universe) -> String {
         let f = &fields[i];
         let t = field_ty_text(f, u);
         if f.skip { writeln!(s, "        let d{}: {} = crate::rt::Draw::draw(g, ar, &mut crate::rt::Presence::random());", i, t).unwrap() }
+        else if f.ty == Ty::OptAlias && !f.optional { writeln!(s, "        let d{}: {} = crate::rt::draw_opt_alias(g);", i, t).unwrap() }
         else { writeln!(s, "        let d{}: {} = crate::rt::Draw::draw(g, ar, pm);", i, t).unwrap() }
     }
     s
@@ -266,7 +274,7 @@ fn enc_text(e: Encoding) -> &'static str { match e { Encoding::Array => "crate::
 fn opt_u64(t: Option<u64>) -> String { match t { Some(t) => format!("Some({}u64)", t), None => "None".into() } }
 
 fn fdescs(fields: &[Field]) -> String {
-    format!("vec![{}]", fields.iter().filter(|f| !f.skip).map(|f| format!("crate::rt::FDesc {{ idx: {}, tag: {}, can_be_absent: {} }}", f.idx, opt_u64(f.tag), f.optional || ty_has_nil(&f.ty))).collect::<Vec<_>>().join(", "))
+    format!("vec![{}]", fields.iter().filter(|f| !f.skip).map(|f| format!("crate::rt::FDesc {{ idx: {}, tag: {}, can_be_absent: {} }}", f.idx, opt_u64(f.tag), if f.ty == Ty::Param && !f.optional { "<T as crate::rt::ParamModel<'a>>::NILABLE".to_string() } else { (f.optional || ty_has_nil(&f.ty)).to_string() })).collect::<Vec<_>>().join(", "))
 }
 
 /// Harness impls for one definition.
